@@ -177,7 +177,10 @@ def blocks(rng: random.Random, depth: int, n: int, clean=True, **kw) -> list[lis
             if kw.get("bold_headings") and rng.random() < 0.5:
                 txt = rng.choice(["**" + " ".join(words(rng, 2)) + "**", "***" + " ".join(words(rng, 2)) + "***",
                                   "**bold** and plain", "*" + "**x y**" + "*"])
-            out.append(["#" * lvl + " " + txt])
+            if lvl <= 2 and rng.random() < 0.25 and "\n" not in txt and not kw.get("no_setext"):
+                out.append([txt, ("=" if lvl == 1 else "-") * rng.randint(3, 8)])   # setext form
+            else:
+                out.append(["#" * lvl + " " + txt])
         elif r < 0.66:
             out.append(list_block(rng, depth, ordered=False, clean=clean, **kw))
         elif r < 0.74:
